@@ -358,6 +358,10 @@ def scenario_aliases(env, cfg):
         "named-sides": {"left": {"value": v}, "right": {"derivative": g}, "bottom": {"value": v}, "top": {"value": v}},
         "wildcard": {"*": {"value": v}, "x+": {"derivative": g}},
         "axis-both-sides": {"x-": {"value": v}, "x+": {"derivative": g}, "y": {"value": v}},
+        # the more specific key refines the less specific one, whatever the order in the dictionary
+        "axis-refined-by-side": {"x": {"value": v}, "x+": {"derivative": g}, "y": {"value": v}},
+        "side-then-axis-order": {"x+": {"derivative": g}, "y": {"value": v}, "x": {"value": v}},
+        "wildcard-refined-by-axis-and-side": {"*": {"derivative": g}, "y": {"value": v}, "x-": {"value": v}},
     }
     for name, spec in formats.items():
         env.same(f"format:{name}", list(ghost(spec).flat), list(ref.flat))
